@@ -131,6 +131,28 @@ def mk_offsets(hi, not_zero):
             c4 = db.read_text(fn, blocksize=bs, linedelimiter="ab", include_path=True).compute(scheduler="sync")
             if [x for x, _ in c4] != ref or any(os.path.basename(pth) != "f.txt" for _, pth in c4):
                 raise Violation(f"read_text(include_path=True) lines differ: size={size} blocksize={bs}")
+            # several files of different content in one call (glob and list), with and without a blocksize
+            fn2 = os.path.join(d, "g.txt")
+            content2 = (b"Qab" + content[::-1])[: size // 2 + 1]
+            with open(fn2, "wb") as f:
+                f.write(content2)
+            t2 = content2.decode()
+            ref2, i2 = [], 0
+            while True:
+                j2 = t2.find("ab", i2)
+                if j2 < 0:
+                    break
+                ref2.append(t2[i2:j2 + 2])
+                i2 = j2 + 2
+            if i2 < len(t2):
+                ref2.append(t2[i2:])
+            for kw in (dict(blocksize=bs), dict(blocksize=None), dict(files_per_partition=1)):
+                m = db.read_text([fn, fn2], linedelimiter="ab", **kw).compute(scheduler="sync")
+                if list(m) != ref + ref2:
+                    raise Violation(f"read_text([f, g], {kw}) lines differ from the two files split after each delimiter (size={size})")
+            _, blocks2 = BC.read_bytes([fn, fn2], delimiter=delim, blocksize=bs, sample=False)
+            if len(blocks2) != 2 or b"".join(dask.compute(*blocks2[1], scheduler="sync")) != content2:
+                raise Violation(f"read_bytes([f, g]) blocks of the second file do not concatenate to it (size={size} blocksize={bs})")
             # two blocksizes of the same file evaluated in ONE graph (block keys must not collide)
             bs2 = bs + 3
             x1 = db.read_text(fn, blocksize=bs, linedelimiter="ab")
